@@ -391,7 +391,21 @@ func runC02(p *core.Prog, r *core.Report) {
 					}
 					n++
 					// classify sources: "existing" = derived from a lookup in kv / GetAt result; "incoming" = parameter value / range value of partial
-					isExisting := func(v ssa.Value) bool {
+					var isExisting func(v ssa.Value) bool
+					isExisting = func(v ssa.Value) bool {
+						// in a shared concatenation helper, what the parameter stands for at the call(s) made from this root
+						if prm, ok := core.SkipConv(v).(*ssa.Parameter); ok && prm.Parent() != root {
+							cvs := core.CallerValues(root, prm)
+							if len(cvs) == 0 {
+								return false
+							}
+							for _, cv := range cvs {
+								if !isExisting(cv) {
+									return false
+								}
+							}
+							return true
+						}
 						s := core.Trace(v, 0)
 						for c := range s.Calls {
 							if c.Name() == "GetAt" || c.Name() == "getAt" || c.Name() == "getLast" {
@@ -1254,7 +1268,7 @@ func checkSaveLoadSymmetry(p *core.Prog, r *core.Report, rule string) {
 			fmt.Sprintf("%s.Save writes StoreData{%s} from the store's own fields", pr.typ, strings.Join(pr.wantSave, ",")), fmt.Sprintf("writes %v (sources ok: %v)", saved, srcOK), p.Pos(save.Pos()))
 		// Load: store fields assigned from the unmarshalled StoreData
 		restored := map[string]string{}
-		core.Instrs(load, func(in ssa.Instruction) {
+		core.InstrsDeep(load, func(in ssa.Instruction) { // (the fields may be assigned by a helper that is handed the decoded values)
 			st, ok := in.(*ssa.Store)
 			if !ok {
 				return
@@ -1264,7 +1278,7 @@ func checkSaveLoadSymmetry(p *core.Prog, r *core.Report, rule string) {
 				return
 			}
 			f := core.FieldOfAddr(fa)
-			src := core.Trace(st.Val, 0)
+			src := core.TraceFrom(load, st.Val, 0)
 			for c := range src.Calls {
 				if c.Name() == "Unmarshal" {
 					from := "size"
